@@ -93,10 +93,18 @@ def Storage.addSnap {S D : Type} (ops : Ops S D) (st : Storage S) (tick : Int) (
   | none => none
   | some d => some ({ st with snaps := snaps }, d)
 
-/-- The glue of `send_snapshots` for one peer once the snapshot is built: new sender state and the
-messages handed to the network. -/
+/-- what the glue hands to `delta_chunks` -/
+structure Xfer where
+  tick : Int
+  base : Int
+  bytes : List UInt8
+  crc : Int
+  deriving DecidableEq, Repr
+
+/-- The glue of `send_snapshots` for one peer once the snapshot is built: new sender state, the
+arguments of `delta_chunks`, and the messages handed to the network. -/
 def sendSnap {S D : Type} (ops : Ops S D) (st : Storage S) (tick : Int) (snap : S) :
-    Outcome (Storage S × List Msg) :=
+    Outcome (Storage S × Xfer × List Msg) :=
   let deltaTick := st.deltaTick.getD (-1)
   match st.addSnap ops tick snap with
   | none => .panic "Delta::create"
@@ -106,7 +114,7 @@ def sendSnap {S D : Type} (ops : Ops S D) (st : Storage S) (tick : Int) (snap : 
     | some bytes =>
       match deltaChunks tick deltaTick bytes (ops.crc snap) with
       | .panic s => .panic s
-      | .ok ms => .ok (st', ms)
+      | .ok ms => .ok (st', { tick := tick, base := deltaTick, bytes := bytes, crc := ops.crc snap }, ms)
 
 /-! ### receiver side -/
 
@@ -123,10 +131,30 @@ def StorageError.name : StorageError → String
   | .invalidCrc => "InvalidCrc"
   | .unpack e => s!"Unpack({e})"
 
+/-- the second half of `add_delta`, once the base snapshot is known: apply, compare the checksum,
+store, acknowledge -/
+def Storage.finishDelta {S D : Type} (ops : Ops S D) (st : Storage S) (crc : Option Int) (tick : Int)
+    (base : S) (delta : D) (w : Bool) : Storage S × Except StorageError S × Bool :=
+  match ops.apply base delta with
+  | .error e => (st, .error (.unpack e), w)
+  | .ok new =>
+    if (match crc with | some c => decide (c ≠ ops.crc new) | none => false) then
+      ({ st with ackTick := none }, .error .invalidCrc, w)
+    else
+      let snaps := { tick := tick, snap := new } :: st.snaps
+      let snaps := if snaps.length > maxStored then snaps.dropLast else snaps
+      ({ st with snaps := snaps, ackTick := some tick }, .ok new, w)
+
+/-- `self.snaps.front().map(|s| s.tick).unwrap_or(-1)` -/
+def Storage.newestTick {S : Type} (st : Storage S) : Int :=
+  match st.snaps.head? with
+  | some s => s.tick
+  | none => -1
+
 /-- `Storage::add_delta`: new state, result, whether `WeirdNegativeDeltaTick` was warned -/
 def Storage.addDelta {S D : Type} (ops : Ops S D) (st : Storage S) (crc : Option Int)
     (deltaTick tick : Int) (delta : D) : Storage S × Except StorageError S × Bool :=
-  if (match st.snaps.head? with | some s => s.tick | none => -1) ≥ tick then (st, .error .oldDelta, false)
+  if st.newestTick ≥ tick then (st, .error .oldDelta, false)
   else if deltaTick ≥ 0 then
     let kept := keepFrom st.snaps deltaTick
     match kept.getLast? with
@@ -136,19 +164,6 @@ def Storage.addDelta {S D : Type} (ops : Ops S D) (st : Storage S) (crc : Option
       else ({ st with snaps := kept, ackTick := none }, .error .unknownSnap, false)
     | none => ({ st with snaps := kept, ackTick := none }, .error .unknownSnap, false)
   else Storage.finishDelta ops st crc tick ops.empty delta (decide (deltaTick ≠ -1))
-where
-  /-- the second half of `add_delta`, once the base snapshot is known -/
-  Storage.finishDelta {S D : Type} (ops : Ops S D) (st : Storage S) (crc : Option Int) (tick : Int)
-      (base : S) (delta : D) (w : Bool) : Storage S × Except StorageError S × Bool :=
-    match ops.apply base delta with
-    | .error e => (st, .error (.unpack e), w)
-    | .ok new =>
-      if (match crc with | some c => decide (c ≠ ops.crc new) | none => false) then
-        ({ st with ackTick := none }, .error .invalidCrc, w)
-      else
-        let snaps := { tick := tick, snap := new } :: st.snaps
-        let snaps := if snaps.length > maxStored then snaps.dropLast else snaps
-        ({ st with snaps := snaps, ackTick := some tick }, .ok new, w)
 
 inductive MgrError where
   | receiver (e : Error)
@@ -209,5 +224,88 @@ def Manager.step {S D : Type} (ops : Ops S D) (m : Manager S) (msg : Msg) :
     | (st', .ok s, w) =>
       ({ receiver := r', storage := st' }, .ok (some s),
         ws.map .receiver ++ if w then [.weirdNegativeDeltaTick] else [])
+
+/-! ### the two sides and the channel between them -/
+
+/-- Sender, receiver and everything that was ever put on the two channels. `sent` and `xfers` are
+history (ghost) variables: they influence nothing. -/
+structure Sys (S : Type) where
+  sender : Storage S := {}
+  client : Manager S := {}
+  /-- every snapshot message handed to the network so far (the channel may deliver any of them,
+  any number of times, in any order) -/
+  msgs : List Msg := []
+  /-- every acknowledgement value the client has put into an input message so far -/
+  acks : List Int := []
+  /-- history: `(tick, snapshot)` for every snapshot the sender built, newest first -/
+  sent : List (Int × S) := []
+  /-- history: the arguments of every `delta_chunks` call -/
+  xfers : List Xfer := []
+
+inductive Ev (S : Type) where
+  /-- the server builds `snap` for `tick` and sends it -/
+  | send (tick : Int) (snap : S)
+  /-- the network delivers message number `i` to the client -/
+  | deliver (i : Nat)
+  /-- the client sends an input message carrying `ack_tick().unwrap_or(-1)` -/
+  | ack
+  /-- the network delivers acknowledgement number `j` to the server -/
+  | deliverAck (j : Nat)
+  /-- an acknowledgement value that no client message carried -/
+  | forgedAck (v : Int)
+  /-- `Manager::reset` -/
+  | clientReset
+
+/-- what an event shows: for a delivery the message's tick, the `Manager`'s result and `ack_tick()`
+before and after -/
+inductive Obs (S : Type) where
+  | quiet
+  | delivered (tick : Int) (res : Except MgrError (Option S)) (ackBefore ackAfter : Option Int)
+
+def Sys.step {S D : Type} (ops : Ops S D) (y : Sys S) : Ev S → Outcome (Sys S × Obs S)
+  | .send tick snap =>
+    match sendSnap ops y.sender tick snap with
+    | .panic s => .panic s
+    | .ok (st', x, ms) =>
+      .ok ({ y with sender := st', msgs := y.msgs ++ ms, sent := (tick, snap) :: y.sent,
+                    xfers := x :: y.xfers }, .quiet)
+  | .deliver i =>
+    match y.msgs[i]? with
+    | none => .ok (y, .quiet)
+    | some m =>
+      let r := y.client.step ops m
+      .ok ({ y with client := r.1 }, .delivered m.tick r.2.1 y.client.ackTick r.1.ackTick)
+  | .ack => .ok ({ y with acks := y.acks ++ [y.client.ackTick.getD (-1)] }, .quiet)
+  | .deliverAck j =>
+    match y.acks[j]? with
+    | none => .ok (y, .quiet)
+    | some v => .ok ({ y with sender := (y.sender.setDeltaTick v).1 }, .quiet)
+  | .forgedAck v => .ok ({ y with sender := (y.sender.setDeltaTick v).1 }, .quiet)
+  | .clientReset => .ok ({ y with client := y.client.reset }, .quiet)
+
+/-- a whole history; the observations are listed in order -/
+def Sys.run {S D : Type} (ops : Ops S D) (y : Sys S) : List (Ev S) → Outcome (Sys S × List (Obs S))
+  | [] => .ok (y, [])
+  | e :: es =>
+    match y.step ops e with
+    | .panic s => .panic s
+    | .ok (y', o) =>
+      match Sys.run ops y' es with
+      | .panic s => .panic s
+      | .ok (y'', os) => .ok (y'', o :: os)
+
+/-- The sender follows the storage API: the ticks of its snapshots are `i32`s and strictly
+increasing (`last` = the newest tick used before this history). -/
+def sendsOk {S : Type} : Option Int → List (Ev S) → Prop
+  | _, [] => True
+  | last, .send t _ :: rest => inI32 t ∧ (∀ l, last = some l → l < t) ∧ sendsOk (some t) rest
+  | last, _ :: rest => sendsOk last rest
+
+/-- The C13 verdict on one observation, relative to the history `sent` of the sender's snapshots. -/
+def Obs.ok {S : Type} (sent : List (Int × S)) : Obs S → Prop
+  | .quiet => True
+  | .delivered t (.ok (some s)) _ after => (t, s) ∈ sent ∧ after = some t
+  | .delivered _ (.ok none) before after => after = before
+  | .delivered _ (.error _) before after => after = before ∨ after = none
 
 end Tw.SnapMgr
